@@ -73,6 +73,7 @@ impl Stats {
     }
 }
 
+#[derive(Serialize, Deserialize)]
 pub struct RunReport {
     pub violations: Vec<Violation>,
     /// fault-free executions that can be cross-checked against the shipped binary
@@ -85,7 +86,30 @@ pub struct RunReport {
 pub fn execute(trace: &Trace, stats: &mut Stats) -> RunReport {
     match trace {
         Trace::World(w) => crate::world_oracles::execute(w, stats),
-        Trace::Lsp(l) => crate::lsp_oracles::execute(l, stats),
+        // A whole language-server run (the history, the fresh reference servers and the `check`
+        // runs of its oracles) executes in one forked child of the worker: process-global state that
+        // the code under test may keep cannot leak from one run into the next, so a violation
+        // replays in a fresh process. (Within one run the servers are threads of that child.)
+        Trace::Lsp(l) => {
+            let l2 = l.clone();
+            let forked = crate::seam::run_forked(move || {
+                let mut st = Stats::default();
+                let rep = crate::lsp_oracles::execute(&l2, &mut st);
+                (rep, st)
+            });
+            match forked {
+                Ok((rep, st)) => {
+                    stats.merge(&st);
+                    stats.digest = crate::prng::mix(&[stats.digest, st.digest]);
+                    rep
+                }
+                Err(why) => RunReport {
+                    violations: vec![Violation { property: l.prop.clone(), signature: format!("{}/run-process-died", l.prop), detail: why }],
+                    nontrivial: true,
+                    proc_cases: vec![],
+                },
+            }
+        }
     }
 }
 
